@@ -35,6 +35,50 @@ type Injector struct {
 	count     int
 	Triggered bool
 	Log       []string // boundary names seen while armed
+
+	// row faults (separate from the statement boundaries): the rowAt-th row fetch of any query fails
+	rowArmed        bool
+	rowAt, rowCount int
+	RowTriggered    bool
+}
+
+// ArmRow makes the at-th row fetch (driver.Rows.Next) from now on fail once.
+func (i *Injector) ArmRow(at int) {
+	i.mu.Lock()
+	defer i.mu.Unlock()
+	i.rowArmed, i.rowAt, i.rowCount, i.RowTriggered = true, at, 0, false
+}
+
+// DisarmRow stops row-fault injection and reports whether it fired.
+func (i *Injector) DisarmRow() bool {
+	i.mu.Lock()
+	defer i.mu.Unlock()
+	i.rowArmed = false
+	return i.RowTriggered
+}
+
+func (i *Injector) hitRow() bool {
+	i.mu.Lock()
+	defer i.mu.Unlock()
+	if !i.rowArmed {
+		return false
+	}
+	i.rowCount++
+	if i.rowCount == i.rowAt {
+		i.RowTriggered = true
+		i.rowArmed = false
+		return true
+	}
+	return false
+}
+
+type faultRows struct{ driver.Rows }
+
+func (r *faultRows) Next(dest []driver.Value) error {
+	if Inj.hitRow() {
+		return ErrInjected
+	}
+	return r.Rows.Next(dest)
 }
 
 var Inj = &Injector{}
@@ -128,6 +172,9 @@ func (c *faultConn) QueryContext(ctx context.Context, q string, args []driver.Na
 		r.Close()
 		return nil, ErrInjected
 	}
+	if err == nil {
+		return &faultRows{r}, nil
+	}
 	return r, err
 }
 
@@ -176,6 +223,9 @@ func (s *faultStmt) QueryContext(ctx context.Context, args []driver.NamedValue) 
 	if err == nil && post {
 		r.Close()
 		return nil, ErrInjected
+	}
+	if err == nil {
+		return &faultRows{r}, nil
 	}
 	return r, err
 }
